@@ -376,3 +376,28 @@ PROPS["C03"]["level_text"] = PROPS["C03"]["level_text"].replace(
     "terms of the property statement: the index of (m, a) in a class is, in file order, the FIRST occurrence of every (m, a, original name) among the method records of the class's last block that are not inlined callees "
     "(the next record does not repeat their obfuscated range) -- so every entry comes from a record that is not an inlined callee, two entries under one (m, a) have different original names, every such record is "
     "represented, and the de-duplication set and the entries depend on the block alone (lemma_block_from_any_state: no state leaks from the class block before). Without the parameter index (ProguardMapper::new) the index is empty.")
+
+# ---- C06 after the reference parser of one item and the concatenation theorem (u5), and defect D8 ----
+PROPS["C06"]["technique"] = ("Verus: every parser function verified with no precondition (totality, termination); parse_proguard_record proved EQUAL to a reference parser of one item "
+                             "(dispatch over the three line grammars of C05, error = first line with its one terminator byte); pure lemmas: every grammar function is local to the line "
+                             "(its result on L ++ T does not depend on T), and by induction over the input the item stream of A + terminator + B is that of A followed by that of B")
+PROPS["C06"]["level_text"] = (
+    "Proof for every byte string: no parser function panics or overflows; every string placed in a record contains no line terminator; an Ok record is taken from within the first line and an "
+    "Err consumes exactly the first line with one terminator byte; rest is a suffix of the input. parse_proguard_record returns EXACTLY parse_spec(bytes): the record and the remainder of the reference parser "
+    "(`#` -> header_spec, four spaces -> member_spec, otherwise class_spec; on failure the first line). ProguardRecordIter yields records(bytes) = skip the line terminators, stop if nothing is left, else one item and "
+    "continue with its remainder (u7), with |records| <= |bytes|. PURE LEMMAS (u5, for ALL byte strings): each grammar function gives the same parts for L ++ T as for L whenever L has no terminator and T is empty or "
+    "starts with one (one lemma per grammar position; a word that ends at the line end is the one place where `end of input` and `terminator` are told apart, and the mandatory literal that follows makes the "
+    "line fail either way); the reference parser consumes at least one byte; and, by induction over A, items(A + terminator + B) is items(A) followed by items(B) -- item by item EQUAL, except that an error item "
+    "for an unterminated malformed LAST line of A gains the terminator byte in its `line` payload (`ParseError::line` includes the terminator: pinned by the suite's try_parse_iter). Consequently the Ok records of "
+    "A + terminator + B are exactly the Ok records of A followed by those of B; input between two line ends that yields no record (blank lines, malformed lines) changes no record; CR, LF and CRLF give the same records. "
+    "The equation failed on the tree as found (defect D8: a remainder of line terminators only yielded a phantom error item) and holds after the fix.")
+PROPS["C06"]["not_decided"] = []
+PROPS["C06"]["assumed"] = PROPS["C06"].get("assumed", []) + [
+    "the link between the iterator's stream (u7: r_of / rest_of, the two results of parse_proguard_record as functions of the bytes) and items() of u5 is by name: u5 proves abs_item(ret.0) == parse_spec(bytes).0 and ret.1 == parse_spec(bytes).1 for the function u7 treats as abstract",
+    "record contents are compared as byte strings (abs_rec: str_bytes of every &str field, the numbers of the line mapping)"]
+PROPS["C01"]["assumed"] = [x for x in PROPS["C01"]["assumed"] if not x.startswith("independence of line endings")] + [
+    "independence of line-ending style and of blank / unparseable lines is proved at the level of the record stream (u5: the Ok records of A + terminator + J + terminator + B are those of A and B when J yields none; CR, LF, CRLF give the same records) -- the builders consume exactly the Ok records (`filter_map(Result::ok)`, behind the ok_records shim); independence of the ORDER of distinctly named class blocks is proved (u23: built(pre ++ b1 ++ b2 ++ post) == built(pre ++ b2 ++ b1 ++ post))"]
+PROPS["C19"]["level_text"] = PROPS["C19"]["level_text"].replace(
+    "the record stream is defined from ProguardRecordIter::next, which is verified against the prophetic iterator laws.",
+    "the record stream records(bytes) (skip line terminators; stop when nothing is left; else one item, then the stream of its remainder) is what ProguardRecordIter::next yields, verified against the prophetic iterator laws "
+    "(this obligation failed on the tree as found: defect D8).")
